@@ -11,9 +11,11 @@ Definition PermEquiv {A} (R : A -> A -> Prop) (l1 l2 : list A) : Prop :=
   exists l, Permutation l1 l /\ Forall2 R l l2.
 
 (* ---------------------------------------------------------------- well-formedness *)
-(* entity ids are unique; the name / id indexes of acmelib refuse duplicates (C04) *)
+(* the getters' sort keys are unique among the entries of each map: entity ids are unique and the
+   name / id indexes of acmelib refuse duplicates (C04); stated on the KEYS, so that it also holds
+   for id-erased networks without id-keyed ties (build_order_free_mod_ids) *)
 Definition wf_attrs (l : list rattr) : Prop :=
-  NoDup (map ra_eid l) /\ Forall (fun a => NoDup (map (@fst Z string) (ra_vals a))) l.
+  NoDup (map attr_key l) /\ Forall (fun a => NoDup (map (@fst Z string) (ra_vals a))) l.
 Definition wf_enum (e : sigenum) : Prop := NoDup (map ev_index (se_values e)).
 
 Inductive wf_sig : rsig -> Prop :=
@@ -23,10 +25,10 @@ Inductive wf_sig : rsig -> Prop :=
     wf_sig (RMux h a n d r gc gs fx g).
 
 Definition wf_msg (m : rmsg) : Prop :=
-  wf_attrs (rm_attrs m) /\ NoDup (map rr_eid (rm_recv m))
+  wf_attrs (rm_attrs m) /\ NoDup (map recv_key (rm_recv m))
   /\ Forall (fun rc => wf_attrs (rr_attrs rc)) (rm_recv m) /\ Forall wf_sig (rm_sigs m).
 Definition wf_nif (x : rnif) : Prop :=
-  wf_attrs (rn_attrs x) /\ NoDup (map rm_eid (rn_msgs x)) /\ Forall wf_msg (rn_msgs x).
+  wf_attrs (rn_attrs x) /\ NoDup (map msg_key (rn_msgs x)) /\ Forall wf_msg (rn_msgs x).
 Definition wf_bus (b : rbus) : Prop :=
   wf_attrs (rb_attrs b) /\ NoDup (map rn_id (rb_nifs b)) /\ Forall wf_nif (rb_nifs b).
 Definition wf_net (r : rnet) : Prop :=
